@@ -6,10 +6,11 @@
 (*   Derived(T)     the pooled names whose value is derived from T         *)
 (*   Allowed(P, s)  the pooled names the execution of statement s of       *)
 (*                  program P may change, seen from the frame s runs in    *)
-(* The pool: every local of main and of the callees, re.group.0-2, four    *)
+(* The pool: every local of main and of the callees, re.group.0-2, six     *)
 (* names per HTTP object (a header, another spelling of it, a sub-field of *)
-(* it, a second header) on req, bereq, beresp, obj, resp, and one          *)
-(* non-header variable per object.                                         *)
+(* it, a second header, a header that starts not set, one that starts set  *)
+(* and empty) on req, bereq, beresp, obj, resp - the not-set / empty       *)
+(* distinction is part of the value - and one non-header variable each.    *)
 (***************************************************************************)
 EXTENDS Integers, Sequences, FiniteSets, TLC
 
@@ -19,21 +20,24 @@ Writable(scope) == CASE scope \in {"recv", "hash"} -> {"req"}
                      [] scope \in {"hit", "error"} -> {"req", "obj"}
                      [] scope \in {"deliver", "log"} -> {"req", "resp"}
 
-Visible(sub) == CASE sub = "main" -> {"var.i", "var.j", "var.f", "var.r", "var.s", "var.t", "var.b"}
+Visible(sub) == CASE sub = "main" -> {"var.i", "var.j", "var.f", "var.r", "var.s", "var.t", "var.b", "var.tm"}
                   [] sub = "f1" -> {"var.p", "var.q", "var.i", "var.s"}
                   [] sub = "f2" -> {"var.p", "var.i", "var.s"}
-IsLocal(n) == n \in {"var.i", "var.j", "var.f", "var.r", "var.s", "var.t", "var.b", "var.p", "var.q"}
+IsLocal(n) == n \in {"var.i", "var.j", "var.f", "var.r", "var.s", "var.t", "var.b", "var.tm", "var.p", "var.q"}
 Ty(n) == CASE n \in {"var.i", "var.j", "var.q"} -> "INTEGER"
            [] n = "var.f" -> "FLOAT"
            [] n = "var.r" -> "RTIME"
            [] n = "var.b" -> "BOOL"
+           [] n = "var.tm" -> "TIME"
            [] OTHER -> "STRING"      \* STRING locals and every header
 
 
 Objs == {"req", "bereq", "beresp", "obj", "resp"}
-LocalNames == {"var.i", "var.j", "var.f", "var.r", "var.s", "var.t", "var.b", "var.p", "var.q"}
+LocalNames == {"var.i", "var.j", "var.f", "var.r", "var.s", "var.t", "var.b", "var.tm", "var.p", "var.q"}
 ReGroups == {"re.group.0", "re.group.1", "re.group.2"}
-HdrRecs == {[n |-> o \o ".http." \o h, o |-> o, g |-> IF h = "H2" THEN "H2" ELSE "H1"] : o \in Objs, h \in {"H1", "h1", "H1:a", "H2"}}
+\* H1 (with another spelling and a sub-field) and H2 start with a value, H3 starts not set, H4 set and empty
+HdrRecs == {[n |-> o \o ".http." \o h, o |-> o, g |-> IF h \in {"H2", "H3", "H4"} THEN h ELSE "H1"] :
+              o \in Objs, h \in {"H1", "h1", "H1:a", "H2", "H3", "H4"}}
 HdrNames == {r.n : r \in HdrRecs}
 Observers == {"req.url", "bereq.url", "beresp.status", "obj.status", "resp.status"}
 PoolNames == LocalNames \cup ReGroups \cup HdrNames \cup Observers
